@@ -858,6 +858,38 @@ def r01_12(ctx, rep):
     once_per_process_key(ctx, rep, "R01.12")
 
 
+@SPEC.rule(
+    "R01.13",
+    "cached and uncached parses read the same text: every call _parse(<text>) in parse() — on the bypass path, the dirty-version path and "
+    "the miss path — gets the text under the same definition (the parameter as given, or one and the same normalisation of it made before "
+    "the paths split); a normalisation (BOM, line ends) that only the cached path sees makes `no tree exactly when there is a syntax error` "
+    "depend on whether the cache is used",
+)
+def r01_13(ctx, rep):
+    from ..cfg import CFG, reaching_defs
+    R = "R01.13"
+    fn = ctx.func(PARSER, "parse", R)
+    site = PARSER + ":parse"
+    cfg = CFG(fn, R)
+    sites = []
+    for x in cfg.nodes:
+        if x.kind in ("stmt", "test") and x.ast is not None and not isinstance(x.ast, (ast.FunctionDef, ast.ClassDef)):
+            for c in ast.walk(x.ast):
+                if isinstance(c, ast.Call) and isinstance(c.func, ast.Name) and c.func.id == "_parse" and c.args and isinstance(c.args[0], ast.Name):
+                    sites.append((x, c.args[0].id))
+    if len(sites) < 2:
+        raise MechanismMissing(R, "expected at least two calls _parse(<text>) in parse() (bypass / miss), found %d" % len(sites))
+    defs = []
+    for x, v in sites:
+        rd = reaching_defs(cfg, v)
+        defs.append((v, frozenset(rd.get(x.id, ()))))
+    same = len({d for _v, d in defs}) == 1 and len({v for v, _d in defs}) == 1
+    rep.ob(R, site, "all %d calls of _parse get the text under the same definition" % len(sites), same,
+           "the calls see different versions of the text: %s — what is parsed with the cache differs from what is parsed without it" %
+           "; ".join("line %d: %s bound at %s" % (x.lineno, v, sorted("parameter" if d == cfg.entry else "line %d" % cfg.nodes[d].lineno for d in ds))
+                     for (x, v), (_v, ds) in zip(sites, defs)))
+
+
 from ._mut import (  # noqa: E402
     delete_stmt_where,
     replace_const_str,
@@ -1005,6 +1037,19 @@ def _m_memo_folder(mod):
                 n.left = ast.Name(id="db_folder", ctx=ast.Load())
                 hit = True
         return hit
+
+    from ._mut import replace_in_func as _r
+    return mod if _r(mod, "parse", edit) else None
+
+
+@SPEC.mutant("text normalised on the cached path only", PARSER, "R01.13", "same definition")
+def _m_norm_cached(mod):
+    def edit(fn):
+        for i, st in enumerate(fn.body):
+            if isinstance(st, ast.Assign) and "_calculate_txt_hash" in norm(st.value):
+                fn.body.insert(i, ast.parse("txt = txt.lstrip('\\ufeff')").body[0])
+                return True
+        return False
 
     from ._mut import replace_in_func as _r
     return mod if _r(mod, "parse", edit) else None
